@@ -636,6 +636,21 @@ func (tt *TermTable) BVSext(a *Term, w int) *Term {
 	return tt.intern(Term{Op: OpBVSext, Sort: BVSort(w), Args: []*Term{a}, U: uint64(w - a.Sort.W)})
 }
 
+func (tt *TermTable) BVConcat(hi, lo *Term) *Term {
+	w := hi.Sort.W + lo.Sort.W
+	if hi.IsConst() && lo.IsConst() && w <= 64 {
+		return tt.BV(w, hi.U<<uint(lo.Sort.W)|lo.U)
+	}
+	if w > 64 {
+		panic(unsupported("bit-vector wider than 64"))
+	}
+	// concat(extract(x,h,m+1), extract(x,m,l)) = extract(x,h,l)
+	if hi.Op == OpBVExtract && lo.Op == OpBVExtract && hi.Args[0] == lo.Args[0] && (hi.U&0xffff) == (lo.U>>16)+1 {
+		return tt.BVExtract(hi.Args[0], int(hi.U>>16), int(lo.U&0xffff))
+	}
+	return tt.intern(Term{Op: OpBVConcat, Sort: BVSort(w), Args: []*Term{hi, lo}})
+}
+
 // BVResize converts a to width w (truncate or extend by signedness).
 func (tt *TermTable) BVResize(a *Term, w int, signed bool) *Term {
 	if w == a.Sort.W {
